@@ -109,6 +109,16 @@ where
         )?;
 
         // --- parse FRI proofs -------------------------------------------------------------------
+        // the proof must carry exactly the layers of the folding schedule: fewer would leave the
+        // FRI verifier without data to read, more would be silently ignored
+        let num_fri_layers = fri_options.num_fri_layers(lde_domain_size);
+        if fri_proof.num_layers() != num_fri_layers {
+            return Err(VerifierError::ProofDeserializationError(format!(
+                "expected {} FRI layers, but the proof contains {}",
+                num_fri_layers,
+                fri_proof.num_layers()
+            )));
+        }
         let fri_num_partitions = fri_proof.num_partitions();
         let fri_remainder = fri_proof
             .parse_remainder()
